@@ -3,6 +3,11 @@
      MISMATCH <line> // model: <value>     model and implementation disagree on this concrete operation
      PROPFAIL <line> // <why>              the property's oracle (evaluated with the model's own `make`) fails on
                                            data the implementation returned (factory defaults)
+     TABFAIL PARAM|OBJECT|USE <index> ...  (stage FACTTAB) an entry of the table regenerated from the source fails its check
+     MISMATCH FACTTAB ...                  (stage FACTTAB) a factory object of the compiled library registers other parameters
+                                           (names / kinds / bounds / comparison operators / defaults, bit for bit, in order)
+                                           than the constructor chain of its class in the table
+     FACTTAB-UNREACHED <label>             table objects no factory returned (listed, not failed)
    and finally MODEL-DONE checked=<n> mismatches=<m> ub=<k> (k = reads the model marks undefined and the harness skipped).
    Integers travel as int64 decimal strings, doubles as C %a strings, strings hex-encoded. *)
 let mism = ref 0
@@ -157,6 +162,95 @@ let cfg_eq (a : param list) (b : param list) =
 
 let rec set_nth l i x = match l with [] -> [] | y :: r -> if i = 0 then x :: r else y :: set_nth r (i - 1) x
 
+(* ---- stage FACTTAB: the table regenerated from the source vs the compiled library -------------------- *)
+let ascii_of_str (s : z list) : string = String.concat "" (List.map (fun c -> String.make 1 (Char.chr ((int_of_z c) land 255))) s)
+let ascii_of_hex (h : string) : string = ascii_of_str (str_of_hex h)
+let tab_fail = ref 0
+let facttab_checked = ref 0
+let facttab_objects = ref 0
+let facttab_params = ref 0
+let facttab_noparam = ref 0
+let reached : (string, bool) Hashtbl.t = Hashtbl.create 64
+
+(* strip namespaces and blanks from a demangled class name: nano::base_solver_gs_t<nano::gsample::fixed_sampler_t, ...> *)
+let norm_class (s : string) : string =
+  let s = Str.global_replace (Str.regexp "[A-Za-z_][A-Za-z_0-9]*::") "" s in
+  Str.global_replace (Str.regexp " ") "" s
+
+let table_checks () =
+  List.iteri (fun i (((file, line), st), ok) ->
+      incr total;
+      if not ok then begin
+        incr tab_fail; incr mism;
+        Printf.printf "TABFAIL PARAM %d %s:%s %s\n" i (ascii_of_str file) (dec_of_z line)
+          (match st with Some s -> show_st s | None -> "CAST-UB (an argument does not convert into int64: static_cast is undefined)")
+      end) param_table;
+  List.iteri (fun i ((((label, _), _), cfg), ok) ->
+      incr total;
+      if not ok then begin
+        incr tab_fail; incr mism;
+        (* locate the first statement of the constructor chain that throws *)
+        let where = (match List.nth object_ops_table i with
+            | None -> "an entry has no storage (cast UB / unknown record)"
+            | Some ops ->
+              let rec go c k = function
+                | [] -> Printf.sprintf "all %d statements succeed but the number of parameters differs from the number of registrations" k
+                | o :: r -> (match cstep c o with
+                    | COk c' -> go c' (k + 1) r
+                    | _ -> Printf.sprintf "statement %d of the constructor chain throws (%s) after %s" k
+                             (match o with CRegister (n, st) -> "register " ^ ascii_of_str n ^ " " ^ show_st st
+                                         | CAssign (n, _) -> "assignment to " ^ ascii_of_str n) (show_cfg c)) in
+              go [] 0 ops) in
+        Printf.printf "TABFAIL OBJECT %d %s :: %s\n" i (ascii_of_str label) where
+      end) object_table;
+  List.iteri (fun i (((file, line), name), ok) ->
+      incr total;
+      if not ok then begin
+        incr tab_fail; incr mism;
+        Printf.printf "TABFAIL USE %d %s:%s %s\n" i (ascii_of_str file) (dec_of_z line) (ascii_of_str name)
+      end) use_table
+
+let defaults_buf : (z list * storage) list ref = ref []
+
+let facttab_object (line : string) (fname : string) (idhex : string) (clshex : string) =
+  let got = List.rev !defaults_buf in
+  defaults_buf := [];
+  incr facttab_objects;
+  let cls = norm_class (ascii_of_hex clshex) in
+  let id = ascii_of_hex idhex in
+  let found = List.filter (fun ((((_, key), _), _), _) -> ascii_of_str key = cls) object_table in
+  let found = if found <> [] then found else
+      (* template class registered under its own name (no alias instance in the table) *)
+      List.filter (fun ((((_, key), _), _), _) -> ascii_of_str key = (match String.index_opt cls '<' with Some k -> String.sub cls 0 k | None -> cls)) object_table in
+  match found with
+  | [] ->
+    if got = [] then incr facttab_noparam
+    else begin incr mism; Printf.printf "MISMATCH FACTTAB %s %s class=%s // the table regenerated from the source has no constructor chain for this class, the library registers: %s\n"
+        fname id cls (show_cfg (List.map (fun (n, s) -> { pname = n; pstore = s }) got)) end
+  | ((((label, _), tid), cfg), _) :: _ ->
+    Hashtbl.replace reached (ascii_of_str label) true;
+    incr total; incr facttab_checked;
+    facttab_params := !facttab_params + List.length got;
+    let impl = List.map (fun (n, s) -> { pname = n; pstore = s }) got in
+    (match cfg with
+     | None -> incr mism; Printf.printf "MISMATCH FACTTAB %s %s class=%s // source table: the constructor chain of %s does not complete (see TABFAIL), the library registers: %s\n"
+                 fname id cls (ascii_of_str label) (show_cfg impl)
+     | Some c ->
+       if not (cfg_eq c impl) then begin
+         incr mism;
+         (* first differing position *)
+         let rec first k a b = match a, b with
+           | p :: a', q :: b' -> if seq p.pname q.pname && st_eq p.pstore q.pstore then first (k + 1) a' b'
+             else Printf.sprintf "position %d: source %s %s | library %s %s" k (ascii_of_str p.pname) (show_st p.pstore) (ascii_of_str q.pname) (show_st q.pstore)
+           | p :: _, [] -> Printf.sprintf "position %d: source %s %s | library has no further parameter" k (ascii_of_str p.pname) (show_st p.pstore)
+           | [], q :: _ -> Printf.sprintf "position %d: source has no further parameter | library %s %s" k (ascii_of_str q.pname) (show_st q.pstore)
+           | [], [] -> "" in
+         Printf.printf "MISMATCH FACTTAB %s %s class=%s // %s // source: %s // library: %s\n" fname id cls (first 0 c impl) (show_cfg c) (show_cfg impl)
+       end);
+    let t = ascii_of_str tid in
+    if t <> "" && t <> id then begin
+      incr mism; Printf.printf "MISMATCH FACTTAB %s %s class=%s // type id in the source table: %s\n" fname id cls t end
+
 (* ---- main loop ---------------------------------------------------------------------------------- *)
 let cur : storage option ref = ref None
 let objs : param list list ref = ref []
@@ -180,6 +274,7 @@ let handle_set line (lhs : string list) (rhs : string) (s : storage) : storage =
   | _, _ -> report line "unparsable assignment line"; s
 
 let () =
+  table_checks ();
   (try
     while true do
       let line = input_line stdin in
@@ -298,14 +393,22 @@ let () =
              (* every default registered by a real object is a parameter the model's construction accepts unchanged *)
              let (s, _) = parse_st st in
              incr total;
+             (match words line with _ :: _ :: _ :: nm :: _ -> defaults_buf := (str_of_hex nm, s) :: !defaults_buf | _ -> ());
              (match make s with
               | Ok s' when st_eq s s' -> ()
               | Ok s' -> propfail line ("construction in the model gives " ^ show_st s')
               | _ -> propfail line "default value is outside the declared domain (model construction throws)")
+           | ["FACT"; fname; idhex; _; cls] when String.length cls > 4 && String.sub cls 0 4 = "cls=" ->
+             facttab_object line fname idhex (String.sub cls 4 (String.length cls - 4))
+           | "FACT" :: _ -> defaults_buf := []
            | _ -> ())
       with
       | End_of_file -> raise End_of_file
       | ex -> report line ("driver exception " ^ Printexc.to_string ex))
     done
   with End_of_file -> ());
+  List.iter (fun ((((label, _), _), _), _) ->
+      if not (Hashtbl.mem reached (ascii_of_str label)) then Printf.printf "FACTTAB-UNREACHED %s\n" (ascii_of_str label)) object_table;
+  Printf.printf "FACTTAB-DONE objects=%d matched=%d params=%d without_parameters_and_not_in_table=%d table_params=%d table_objects=%d table_uses=%d tabfail=%d\n"
+    !facttab_objects !facttab_checked !facttab_params !facttab_noparam (List.length param_table) (List.length object_table) (List.length use_table) !tab_fail;
   Printf.printf "MODEL-DONE checked=%d mismatches=%d ub=%d\n" !total !mism !ubs
